@@ -13,6 +13,14 @@ TXN_NOTE = ("Trusted: TLC, the Go harness' projection of models to abstract JSON
             "the harness. Bounds: values from small pools, integers within 2^30, dyadic reals, wait with timeout 0 only.")
 
 P = {
+ "C01": dict(engine="tla-session", cat="model_checking", ref="6 C01",
+             text="Session.tla models the critical sections of monitor set-up (request, registration, reply hand-over, apply, deferred replay) "
+                  "against the server's notify-then-commit; TLC checks CacheMirrors/NoInconsistency on every interleaving and refutes the two "
+                  "pinned variants; TLC-enumerated schedules are forced on a real client, server and writer with the verif pause points for all "
+                  "three monitor methods; random sessions of 2-3 real clients (first and additional monitors established at random points of random "
+                  "histories, own and foreign transactions) are recorded and every cache snapshot is validated by TLC against the monitored part of the database.",
+             note="Trusted: TLC, the pause points (they only delay), the harness' cache projection. The monitors of one client cover disjoint tables; only monitored columns are compared.",
+             tech="TLC model checking of Session.tla + gate-forced schedule replay + TLC trace validation of recorded sessions"),
  "C02": dict(engine="tla-txn", cat="model_checking", text=TXN_TEXT, note=TXN_NOTE, ref="6 C02",
              tech="TLC model checking of Txn.tla (Atomic) + TLC trace validation of failing transactions on the real engine and server"),
  "C03": dict(engine="tla-txn", cat="model_checking", text=TXN_TEXT, note=TXN_NOTE, ref="6 C03",
@@ -47,6 +55,7 @@ P = {
 }
 ENGINES = {
  "tla-txn": ("spec/TraceTxn.tla", "TLA+ reference model of OVSDB transactions, references, indexes and monitors + TLC trace validation of executions recorded from the real engine/server"),
+ "tla-session": ("spec/Session.tla", "TLA+ model of monitor set-up vs notify/commit (Session.tla), schedules forced with pause points, sessions validated by TraceTxn.tla"),
  "tla-diff": ("spec/Diff.tla", "TLA+ difference algebra and update aggregation (Diff.tla, Merge.tla) + enumerate-and-replay through the updates package"),
  "tla-cache": ("spec/Cache.tla", "TLA+ state machine of the row cache's index maintenance + enumerate-and-replay + TLC trace validation"),
 }
